@@ -16,6 +16,7 @@ type Group struct {
 	Codec []CodecCase       `json:"codec"`
 	Wire  []WireCase        `json:"wire"`
 	Conc  *ConcurrentConfig `json:"conc"`
+	Fuzz  FuzzConfig        `json:"fuzz"`
 	Tag   string            `json:"tag"`
 	Base  string            `json:"base"` // base URL path of the spec (normal form), for the client
 }
@@ -81,6 +82,8 @@ func Main(regs map[string]Registry) {
 				RunCodec(reg, rec, g.Codec)
 			case "wire":
 				RunWire(reg, rec, g)
+			case "fuzz":
+				RunFuzz(reg, rec, g)
 			case "concurrent":
 				RunConcurrent(reg, rec, g)
 			default:
